@@ -412,6 +412,7 @@ def run(ctx):
     _run_rules(ctx)
     from .. import boundaries
     boundaries.check(ctx, 'C03.RB', 'C03')
+    boundaries.check_guards(ctx, 'C03.RG', 'C03')
     boundaries.check_calls(ctx, 'C03.RC', 'C03')
     from . import C06
     C06.r1b_path_sites(ctx, 'C03.R10')  # credit queued for a WINDOW_UPDATE is announced: the releaser wakes the connection task
